@@ -391,6 +391,13 @@ def check_borrowed(prog, rep):
                 return None
 
             for st in stmts_of(f):
+                # the boundary matrices of a segment MPS are stored tensors of that MPS
+                if isinstance(st, ast.Assign) and len(st.targets) == 1 and isinstance(
+                        st.targets[0], ast.Tuple) and isinstance(st.value, ast.Attribute) and \
+                        st.value.attr == 'segment_boundaries':
+                    for e in st.targets[0].elts:
+                        if isinstance(e, ast.Name):
+                            borrowed[e.id] = (st, unparse(st.value))
                 if isinstance(st, ast.Assign) and len(st.targets) == 1 and isinstance(
                         st.targets[0], ast.Name):
                     v = st.value
